@@ -45,6 +45,7 @@ func genC09(t *rapid.T) c09Case {
 		Views:            rapid.Bool().Draw(t, "tviews"),
 		Nested:           rapid.Bool().Draw(t, "tnested"),
 		Names:            rapid.Bool().Draw(t, "tnames"),
+		Deep:             rapid.IntRange(0, 3).Draw(t, "tdeep") == 0,
 		NoCollectorArr:   knownActive(c09KCollector),
 		NoMixinDisorder:  knownActive(c09KMixin),
 		NoQuoteColonName: knownActive(c09KJSONName),
